@@ -58,6 +58,45 @@ CLAIMS = {
         note=COMMON_NOTE + "Hypothesis beyond the statement: each field keeps one kind/dtype/shape along a row (the "
              "quantifier's value classes satisfy it). Exactly representable values only.",
         tech="Lean 4 theorems over Q (telescoping by induction on rows, regrouping lemmas) + differential correspondence"),
+    "C05": dict(level=PV, ref="§7 C05/C06/C19",
+        text="17 kernel-checked theorems, none open, about a byte-level codec model (bit view: ints with Int64 range, "
+             "floats and array payloads as raw bytes, insertion-ordered details): per-class read_write lemmas "
+             "(date, optString, limit, array, value, dict, metadata, cell, pool, records), pool_index_never_dict_end "
+             "(no key of the padded pool gets an index whose low byte is DICT_END - the D6 repair, proved), "
+             "decode_encode : WF t -> decode (encode t) = ok t for any number of keys up to the format's limits, "
+             "decode_encode_empty, roundtrip_compressed (gzip a parameter), inferCompress_spec. All tags/magic/version "
+             "come from the table regenerated from /repo each run. Correspondence byte-exact in both directions: "
+             "to_binary bytes = Model.encode bytes; Model.decode of the Python file = input; from_binary of "
+             "Model.encode output = input (class, scalar kind, dtype, shape, raw bytes); .trib/.tribc, explicit and "
+             "inferred compression, empty triangle, non-ASCII, 0-400 keys.",
+        note=COMMON_NOTE + "gzip and UTF-8 are trusted library layers. Domain: metadata that Python's == identifies "
+             "share one representation (1 vs 1.0 vs True, dict order); int limit reads back as float; numpy scalar "
+             "types read back as Python scalars; NaN limit is the format's encoding of None.",
+        tech="Lean 4 proof (parser/printer round trip by per-class lemmas and induction over records) + regenerated "
+             "constants + byte-exact bidirectional correspondence"),
+    "C06": dict(level=PV, ref="§7 C05/C06/C19",
+        text="15 kernel-checked theorems, none open: encode_layout_v1 (header bytes, tag values, field widths and every "
+             "struct format string of writer and reader equal the literal v1 constants - decide over the regenerated "
+             "table, so a symmetric writer+reader edit that no round trip can see breaks it), tags_distinct, "
+             "dictEnd_not_value_tag, encode_header, pool_sorted, field_widths, little_endian, "
+             "metadata_record_only_on_change, independent_codec_agrees, encode_perm_invariant (bytes independent of the "
+             "order cells were supplied, via C01), decode_bad_magic_error, decode_bad_version_error. The Lean encoder is "
+             "written from the layout comment (the independent codec). Correspondence adds the history: the five "
+             "shipped .trib files decode (model and implementation) to dumps pinned under corpus/golden and re-encode "
+             "byte-identically; 42 pinned generated files under corpus/pinned.",
+        note=COMMON_NOTE + "Pinned dumps were recorded once from the verified tree.",
+        tech="Lean 4 proof over regenerated format tables + independent encoder/decoder model + golden-file history"),
+    "C19": dict(level=PV, ref="§7 C05/C06/C19",
+        text="13 kernel-checked theorems, none open: ten per-class prefix lemmas (on a strict prefix of its encoding a "
+             "reader fails or returns having consumed everything) and decode_prefix_safe : WF t -> for every "
+             "n < length (encode t), decode (take n (encode t)) is an error or ok (take k t) - every crash point of "
+             "every file, by induction over records. Correspondence: for each generated file EVERY byte offset: "
+             "from_binary(file[:n]) vs Model.decode(bytes[:n]) and Spec.prefixSafe on the implementation's answer; "
+             "compressed files: every truncation must raise.",
+        note=COMMON_NOTE + "gzip's behaviour on truncated input is library behaviour: enumerated at every offset, not "
+             "proved. BufferedReader.peek/short-read semantics as modelled.",
+        tech="Lean 4 proof (prefix-safety of a parser by per-class lemmas + induction over records) + all-offsets "
+             "correspondence"),
     "C07": dict(level=TV, ref="§7 C07",
         text="Model of triangle_to_dict and of the decoder (object_hook applied bottom-up to every object, "
              "_parse_cell_set, _parse_observation) over a JSON AST. Proved: ISO date round trip for every valid date "
